@@ -77,6 +77,16 @@ func (w *World) verifyContract(con *Contract, opts *RunOpts) (res *FuncResult) {
 	}()
 	findings := opts.findingsFor(con)
 	pathNo := 0
+	if _, ok := con.option("both-map-orders"); ok {
+		// every shape once with maps iterated in insertion order, once reversed
+		var both []*ShapeCase
+		for _, sc := range shapes {
+			rev := &ShapeCase{St: sc.St.clone(), Args: sc.Args, Env: sc.Env, Desc: append(append([]string{}, sc.Desc...), "maporder=reversed")}
+			rev.St.Ghost["maporder"] = lit("rev")
+			both = append(both, sc, rev)
+		}
+		shapes = both
+	}
 	for _, sc := range shapes {
 		func() {
 			defer func() {
